@@ -118,7 +118,21 @@ def create_load_table(
     else:
         if debug:
             h_print(f"Loading LR table from '{table_file_name}'")
-        table = load_table(table_file_name, grammar)
+        try:
+            table = load_table(table_file_name, grammar)
+        except ValueError:
+            # Table file is incomplete or corrupted (e.g. interrupted write).
+            # Calculate the table again.
+            return create_load_table(
+                grammar,
+                itemset_type,
+                start_production,
+                prefer_shifts,
+                prefer_shifts_over_empty,
+                force_create=True,
+                debug=debug,
+                **kwargs,
+            )
 
     return table
 
